@@ -509,3 +509,36 @@ def empty_packet_table(F, fid):
                 raise AnchorLost("%s: catch-all arm returns a packet" % fid)
             (cond if arm.get("guard") else uncond).add(v)
     return uncond, cond - uncond
+
+
+def h_stateclone(F, R):
+    """The caller-held poll state is plain data: a copy of it (Clone) is the same state, so resuming from a snapshot is resuming
+    from the original. Each state type's Clone is derived, or, evaluated on an abstract value, returns a value whose every
+    field is the original's."""
+    from peval import PE, Sym, Adt, Undecided
+    n = 0
+    for path, a in sorted(F.adts.items()):
+        if not path.startswith("common::poll::") or "State" not in path:
+            continue
+        imps = [i for i in F.impls if (i.get("trait") or "").endswith("clone::Clone") and i.get("self_adt") == path]
+        if not imps:
+            continue
+        n += 1
+        if imps[0].get("derived"):
+            R.ok("H-borrow", "clone/%s" % path.rsplit("::", 1)[1], "derived")
+            continue
+        fid = next((it["def"] for it in imps[0]["items"] if it["name"] == "clone"), None)
+        good = False
+        why = "hand-written"
+        if fid in F.fns and a["kind"] == "struct":
+            fields = {f["name"]: Sym(("field", f["name"])) for f in a["variants"][0]["fields"]}
+            val = Adt(path, path.rsplit("::", 1)[1], dict(fields))
+            try:
+                r = PE(F).call_fn(fid, [val])
+                good = isinstance(r, Adt) and r.adt == path and all(r.fields.get(k) == v for k, v in fields.items())
+                why = "evaluates to %r" % (r,)
+            except Undecided as e:
+                why = "cannot be evaluated: %s" % e
+        R.check(good, "H-borrow", "clone/%s" % path.rsplit("::", 1)[1],
+                "Clone for %s is hand-written and %s: a snapshot of the caller-held state is not the state" % (path, why[:160]), where=fid or path)
+    R.floor("H-borrow", "poll state types with Clone", n, 1)
